@@ -15,6 +15,8 @@ type Entry struct {
 	Tags []string
 	// ExtraParams: plugin parameters given in addition to the YAML file (both channels set the option).
 	ExtraParams []string
+	// RawYAML: complete top-level YAML entries added to the configuration file as they are.
+	RawYAML []string
 	// Pinned: exclusions the entry's name overrides depend on (kept by OptionVariant).
 	Pinned []string
 }
